@@ -29,6 +29,11 @@ def matrix(tier):
                     continue
                 jobs.append(dict(fmt=fmt, kind=kind, position='cell' if n % 2 == 0 else 'nested', version='3.0', N=n, alphabet=META,
                                  timeout=300 if tier == 'quick' else 1500))
+        # two symbolic payloads in adjacent cells (cross-cell interaction), one code point each (thorough: 2+1 over the metacharacters)
+        for k1, k2 in (('str', 'str'), ('str', 'uri'), ('uri', 'str'), ('refdis', 'str'), ('xstr', 'refdis')):
+            jobs.append(dict(fmt=fmt, kind=k1, kind2=k2, position='cell', version='3.0', N=1, N2=1, timeout=300 if tier == 'quick' else 1500))
+            if tier != 'quick':
+                jobs.append(dict(fmt=fmt, kind=k1, kind2=k2, position='cell', version='3.0', N=2, N2=2, alphabet=META, timeout=1500))
         jobs.append(dict(fmt=fmt, kind='str', position='cell', version='3.0', N=min(nmax, 2), multi=True, timeout=300 if tier == 'quick' else 1500))
         jobs.append(dict(fmt=fmt, kind='uri', position='cell', version='3.0', N=1, multi=True, timeout=300))
     return jobs
@@ -42,8 +47,8 @@ def run(chk):
     chk.bounds = dict(payload_code_points='0..%d code points, each an unconstrained z3 Int in U+0000..U+10FFFF minus surrogates; plus 4..%d code points over the metacharacter alphabet %r' % (min(nmax, 3), nmax, META),
                       kinds=KINDS, positions_3_0=POS30, positions_2_0=POS20, formats=['zinc', 'json'],
                       grid='2 columns x 3 rows, concrete neighbours of other kinds (number, string with quote, marker, absent cell)',
-                      documents='single grid; two-grid documents for str/uri cell')
-    chk.assumptions = ['one symbolic payload per document (neighbours concrete)',
+                      documents='single grid; two-grid documents for str/uri cell; two symbolic payloads in adjacent cells (1+1 code points; thorough 2+2 over the metacharacter alphabet)')
+    chk.assumptions = ['one symbolic payload per document (neighbours concrete), except in the two-payload jobs',
                        'JSON text layer (json.dumps/json.loads) is an inverse pair on str/list/dict/None/bool/float trees: the symbolic run hands the writer\'s JSON-ready tree to hszinc.parse; replay uses the real text',
                        'pyparsing semantics as implemented by the symbolic interpreter over the real grammar objects (differentially tested, see evidence of C09 translator validation)',
                        'Bin payloads and tag names are not free text (not listed by the property)']
